@@ -529,6 +529,8 @@ type driver struct {
 	seen      map[string]bool   // violating calls already recorded
 	groups    map[string]*group // violating calls grouped by key
 	immediate bool              // replay mode: report at once
+	stalls    map[string]int    // further stalls per confirmed hang key
+	abandoned map[string]int    // chunks given up per area after repeated stalls at a reported hang site
 }
 
 func (d *driver) isHanging(key string) bool {
@@ -897,6 +899,19 @@ func (d *driver) judgeDeath(t task, seq uint64, hung bool, stuck *protoMsg, stde
 			key := hangKey(stuck.Entry, stuck.Msg)
 			if d.isHanging(key) {
 				// same site as a hang already confirmed with the full ceiling
+				d.mu.Lock()
+				d.stalls[key]++
+				n := d.stalls[key]
+				if n > 3 {
+					d.abandoned[a.Name]++
+				}
+				d.mu.Unlock()
+				if n > 3 {
+					// every further stalling input costs the reduced ceiling and a
+					// restart of the chunk: stop looking for more instances of a
+					// defect that is already reported, give the chunk up
+					return "abandon"
+				}
 				d.violation(a, t, "hang", key, fmt.Sprintf("%s stalled on input %s at the site of a hang that was already confirmed in this run with the full ceiling of %s on three re-runs (this instance: stopped after %s, not re-confirmed)\n  %s", stuck.Entry, stuck.Input, d.ceil, reducedCeiling, strings.ReplaceAll(stackOfCall(stuck.Msg), "\n", "\n  ")), stuck.Entry, stuck.Input)
 				return "confirmed"
 			}
@@ -1116,7 +1131,11 @@ func (d *driver) run() {
 		if int(st.done.Load()) == a.Chunks {
 			r.Space(fmt.Sprintf("%s: %s (%d calls)", a.Name, a.Bound, st.evals.Load()))
 		} else {
-			r.Incomplete(fmt.Sprintf("%s: %d of %d chunks completed (%d calls) before the budget expired or a worker was lost", a.Name, st.done.Load(), a.Chunks, st.evals.Load()))
+			why := "before the budget expired or a worker was lost"
+			if n := d.abandoned[a.Name]; n > 0 {
+				why = fmt.Sprintf("; %d chunks were given up after more than 3 further stalls at the site of an already reported hang (each further instance costs %s and a restart of the chunk)", n, reducedCeiling)
+			}
+			r.Incomplete(fmt.Sprintf("%s: %d of %d chunks completed (%d calls) %s", a.Name, st.done.Load(), a.Chunks, st.evals.Load(), why))
 		}
 	}
 	r.Set("areas", per)
@@ -1187,7 +1206,7 @@ func Main(t *testing.T, property, part string, areas func(thorough bool) []*Area
 		if own {
 			defer os.RemoveAll(scratch)
 		}
-		d := &driver{r: r, areas: areas(r.Thorough()), tier: r.Tier, scratch: scratch, ceil: ceiling(), hanging: map[string]bool{}, skips: map[task][]uint64{}, seen: map[string]bool{}, groups: map[string]*group{}}
+		d := &driver{r: r, areas: areas(r.Thorough()), tier: r.Tier, scratch: scratch, ceil: ceiling(), hanging: map[string]bool{}, skips: map[task][]uint64{}, seen: map[string]bool{}, groups: map[string]*group{}, stalls: map[string]int{}, abandoned: map[string]int{}}
 		r.Rule(rule)
 		r.Assume("C07 is decided for all inputs up to the stated bounds, not all byte strings: every member of each bounded family (token sequences, short strings over the stated alphabets, every truncation and single-byte mutation class of valid encodings, every length 0..64 of a byte argument) is executed; coverage-guided fuzzing is a different family and is not used")
 		r.Assume("hang = a call that does not return within the per-call ceiling (30 s unless overridden; slowest legitimate call observed is an unsatisfiable cron Next, ~50 ms), observed once in the sweep and confirmed on three isolated re-runs; after a hang has been confirmed, further stalls at the same code site are recorded under the same key after 5 s without re-confirmation")
